@@ -2,9 +2,11 @@ package h
 
 import (
 	"fmt"
+	"github.com/netflix/rend/handlers/memcached/chunked"
 	"github.com/netflix/rend/verifshim/vsync"
 	"testing"
 	"time"
+	"verif/fakemc"
 
 	"verif/refmodel"
 	"verif/rt"
@@ -146,6 +148,9 @@ func RunSeq(sc SeqScenario, o SeqOpts) *SeqResult {
 				w.L1.Evict(op.Key)
 			}
 			continue
+		case "evict-entry": // one backend entry, named by its backend key
+			w.L1.Evict(op.Key)
+			continue
 		case "advance":
 			time.Sleep(time.Duration(op.Sec) * time.Second)
 			m.Now = uint32(time.Now().Unix())
@@ -169,7 +174,22 @@ func RunSeq(sc SeqScenario, o SeqOpts) *SeqResult {
 			add(i, "connection-closed", "server ended the connection", op, e.Class, "closed")
 			break
 		}
-		if o.CheckSubset {
+		if o.CheckSubset && sc.Cfg.L1H == "chunked" {
+			// what the chunked L1 would serve (read through a handler over a copy) must be L2's
+			seenKey := map[string]bool{}
+			for _, bk := range w.L1.Keys() {
+				ck, _, ok := ownerOf(bk)
+				if !ok || seenKey[ck] {
+					continue
+				}
+				seenKey[ck] = true
+				r := CallHandler(chunked.NewHandler(fakemc.NewConn(w.L1.Clone(), "subset")), wire.Op{Kind: "get", Key: ck})
+				b := w.L2.Lookup(ck)
+				if len(r.Hits) == 1 && (b == nil || r.Hits[0].Val != string(b.Val) || r.Hits[0].Flags != b.Flags) {
+					add(i, "l1-not-subset-of-l2", fmt.Sprintf("after the command the chunked L1 serves %q=%q/%x but L2 holds %v", ck, r.Hits[0].Val, r.Hits[0].Flags, b), op, "subset", "differs")
+				}
+			}
+		} else if o.CheckSubset {
 			for _, k := range w.L1.Keys() {
 				a := w.L1.M[k]
 				b := w.L2.Lookup(k)
